@@ -523,6 +523,90 @@ func (c *c17) hrv(hc HVCase) {
 	c.out.Emit(ev)
 }
 
+// ---- response side: containers ----
+
+type HRCCase struct {
+	Elems []string `json:"elems"` // the list's elements as text (decimal for numbers)
+	Num   bool     `json:"num"`   // list<i32> instead of list<string>
+	Kitex bool     `json:"kitex"`
+	Two   bool     `json:"two"`
+}
+
+func (c *c17) hrc(hc HRCCase) {
+	c.cases++
+	ety := "string"
+	if hc.Num {
+		ety = "i32"
+	}
+	anno := `api.header = "x-val"`
+	if hc.Two {
+		anno = `api.query = "q", ` + anno
+	}
+	idl := fmt.Sprintf("namespace go hc\nstruct Resp {\n  1: list<%s> f (%s)\n  2: string msg\n  3: i32 n\n}\nservice S { Resp M(1: Resp r) }\n", ety, anno)
+	desc, ok := c.descs[idl]
+	if !ok {
+		svc, err := thrift.NewDescritorFromContent(context.Background(), "hrc.thrift", idl, nil, true)
+		if err != nil {
+			die("hrc idl rejected: %v\n%s", err, idl)
+		}
+		fn, _ := svc.LookupFunctionByMethod("M")
+		desc = fn.Request().Struct().FieldById(1).Type()
+		c.descs[idl] = desc
+	}
+	w := thrift.NewBinaryProtocolBuffer()
+	w.WriteFieldBegin("", thrift.LIST, 1)
+	if hc.Num {
+		w.WriteListBegin(thrift.I32, len(hc.Elems))
+		for _, e := range hc.Elems {
+			n, _ := strconv.Atoi(e)
+			w.WriteI32(int32(n))
+		}
+	} else {
+		w.WriteListBegin(thrift.STRING, len(hc.Elems))
+		for _, e := range hc.Elems {
+			w.WriteString(e)
+		}
+	}
+	doc := append(append([]byte(nil), w.Buf...), 11, 0, 2, 0, 0, 0, 1, 'm', 8, 0, 3, 0, 0, 0, 7, 0)
+	el := []B{}
+	for _, e := range hc.Elems {
+		el = append(el, B(e))
+	}
+	ev := map[string]interface{}{"ev": "HRC", "elems": el, "num": hc.Num, "kitex": hc.Kitex, "two": hc.Two, "st": "ok", "txt": B{}, "inbody": true, "others": false,
+		"case": map[string]interface{}{"hrc": hc}}
+	func() {
+		defer func() {
+			if e := recover(); e != nil {
+				ev["st"] = "panic:" + fmt.Sprint(e)
+			}
+		}()
+		resp := dhttp.NewHTTPResponse()
+		ctx := context.WithValue(context.Background(), conv.CtxKeyHTTPResponse, resp)
+		cv := t2j.NewBinaryConv(conv.Options{EnableHttpMapping: true, OmitHttpMappingErrors: hc.Two, UseKitexHttpEncoding: hc.Kitex})
+		out, err := cv.Do(ctx, desc, doc)
+		if err != nil {
+			ev["st"] = "err"
+			ev["note"] = err.Error()
+			return
+		}
+		var m map[string]interface{}
+		if json.Unmarshal(out, &m) != nil {
+			ev["st"] = "badjson"
+			return
+		}
+		_, inbody := m["f"]
+		ev["inbody"] = inbody
+		ev["others"] = m["msg"] == "m" && fmt.Sprint(m["n"]) == "7"
+		vs := resp.Response.Header.Values("x-val")
+		if len(vs) != 1 {
+			ev["st"] = fmt.Sprintf("header-set-%d-times", len(vs))
+			return
+		}
+		ev["txt"] = B(vs[0])
+	}()
+	c.out.Emit(ev)
+}
+
 // ---- response side ----
 
 func (c *c17) response(kind string, ty string) {
@@ -775,6 +859,31 @@ func c17Main(args map[string]string) {
 				}
 				c.out.Begin(idx-1, map[string]interface{}{"resp": k, "ty": ty})
 				c.response(k, ty)
+			}
+		}
+	}
+	if args["responses"] == "1" {
+		// container values delivered to a header: as JSON text, or joined the kitex way; alone or behind an annotation that
+		// cannot deliver on a response (errors omitted)
+		for _, num := range []bool{false, true} {
+			for _, elems := range [][]string{{}, {"solo"}, {"a", "b"}, {"x", "yy", "zzz"}} {
+				for _, kitex := range []bool{false, true} {
+					for _, two := range []bool{false, true} {
+						idx++
+						if idx-1 < startAt {
+							continue
+						}
+						hc := HRCCase{Elems: elems, Num: num, Kitex: kitex, Two: two}
+						if num {
+							hc.Elems = nil
+							for i := range elems {
+								hc.Elems = append(hc.Elems, fmt.Sprint([]int{7, -2, 2147483647}[i]))
+							}
+						}
+						c.out.Begin(idx-1, map[string]interface{}{"hrc": hc})
+						c.hrc(hc)
+					}
+				}
 			}
 		}
 	}
